@@ -102,3 +102,45 @@ Proof.
   apply (vacuum_frame A rd h r vis h' Hv).
   intros id Hin. destruct (Hroot id Hin) as [k Hk]. exact (Hcov k id Hk).
 Qed.
+
+(* ---- non-vacuity: a small database with a property tree, blobs, a segment with reverse arrays ---- *)
+Definition ex_csr_meta : bytes :=
+  csr_magic_written ++ le 8 1 ++ le 4 0 ++ le 4 1 ++ le 4 0 ++ le 4 1 ++ le 8 3 ++ le 8 2 ++ le 8 3 ++ le 8 2
+  ++ le 4 1 ++ le 4 1 ++ le 4 1 ++ le 4 1 ++ le 8 10 ++ le 8 11 ++ le 8 12 ++ le 8 13.
+Definition ex_raw : praw := {| p_bt := None; p_blob_next := 0; p_blob_len := 0; p_csr := [] |}.
+Definition ex_heap : heap := [
+  (2, ex_raw);                                                                           (* node table *)
+  (3, {| p_bt := None; p_blob_next := 0; p_blob_len := 0; p_csr := [] |});               (* catalog *)
+  (4, {| p_bt := Some (BtLeaf 0 [6]); p_blob_next := 0; p_blob_len := 0; p_csr := [] |}); (* hnsw vec tree *)
+  (5, {| p_bt := Some (BtInternal 0 7 [8]); p_blob_next := 0; p_blob_len := 0; p_csr := [] |}); (* property tree root *)
+  (6, {| p_bt := None; p_blob_next := 0; p_blob_len := 16; p_csr := [] |});
+  (7, {| p_bt := Some (BtLeaf 8 [9]); p_blob_next := 0; p_blob_len := 0; p_csr := [] |});
+  (8, {| p_bt := Some (BtLeaf 0 []); p_blob_next := 0; p_blob_len := 0; p_csr := [] |});
+  (9, {| p_bt := None; p_blob_next := 15; p_blob_len := 8182; p_csr := [] |});
+  (10, ex_raw); (11, ex_raw); (12, ex_raw); (13, ex_raw);
+  (14, {| p_bt := None; p_blob_next := 0; p_blob_len := 0; p_csr := ex_csr_meta |});
+  (15, {| p_bt := None; p_blob_next := 0; p_blob_len := 3; p_csr := [] |});
+  (16, ex_raw)                                                                           (* orphan *)
+].
+Definition ex_roots : roots := {| r_i2e_start := 2; r_i2e_len := 3; r_catalog := 3; r_cat_entries := Some [(true, 4)];
+  r_props := 5; r_stats := 0; r_segments := [14] |}.
+
+Example ex_vacuum_keeps :
+  match vacuum ex_heap ex_roots with
+  | Ok (vis, h') => cert ex_heap ex_roots vis && negb (mem 16 vis) && mem 12 vis && mem 13 vis && (length h' =? 14)%nat
+  | _ => false
+  end = true.
+Proof. vm_compute. reflexivity. Qed.
+
+(* a rooted reader: load the segment as csr.rs does (meta page, then the four page lists) *)
+Definition ex_load_segment : reader (option (list bool)) :=
+  Read 14 (fun m => match m with
+    | None => Ret None
+    | Some pg => match csr_pages_load (p_csr pg) with
+                 | Ok ids => (fix go (l : list N) (acc : list bool) : reader (option (list bool)) :=
+                                match l with [] => Ret (Some acc)
+                                | x :: t => Read x (fun p => go t (acc ++ [match p with Some _ => true | None => false end])) end) ids []
+                 | _ => Ret None end end).
+Example ex_load_segment_reads : touched ex_heap ex_load_segment = [14; 10; 11; 12; 13]
+  /\ run_reader ex_heap ex_load_segment = Some [true; true; true; true].
+Proof. vm_compute. split; reflexivity. Qed.
